@@ -35,7 +35,7 @@ def cases(tier, seed):
             d = gen.random_mesh(rng, 80 if tier == "quick" else 600)
         yield {"mesh": d, "dseed": int(rng.integers(0, 10**6)), "lead": [int(x) for x in rng.integers(1, 4, size=int(rng.integers(0, 4)))],
                "dtype": str(rng.choice(["float64", "float64", "float32", "int64", "bool"])), "rule": int(rng.integers(0, len(RULES))) if rng.random() < 0.6 else -1,
-               "history": str(rng.choice(["fresh", "face_areas_first", "other_rule_first"]))}
+               "history": str(rng.choice(["fresh", "face_areas_first", "other_rule_first"])), "layout": str(rng.choice(["C", "C", "F", "T", "strided", "T_via_transpose"]))}
 
 
 def run_case(ctx, case):
@@ -66,7 +66,24 @@ def run_case(ctx, case):
         return rng.normal(size=shape).astype(case["dtype"])
 
     a = mk(tuple(lead) + (m.n_face,))
-    uda = U.UxDataArray(a.copy(), dims=ldims + ["n_face"], uxgrid=g, name="psi")
+    # memory layout of the data: C order, Fortran order, a transposed view of face-major storage (model output is often
+    # written (n_face, lev, time) and transposed), a strided view
+    layout = case.get("layout", "C")
+    if layout == "F":
+        stored = np.asfortranarray(a)
+    elif layout == "T":
+        stored = np.ascontiguousarray(a.T).T
+    elif layout == "strided" and a.ndim >= 1:
+        wide = np.zeros(a.shape[:-1] + (2 * a.shape[-1],), dtype=a.dtype)
+        wide[..., ::2] = a
+        stored = wide[..., ::2]
+    else:
+        stored = a.copy()
+    sig["layout"] = layout
+    ctx.observe("layout_" + layout)
+    uda = U.UxDataArray(stored, dims=ldims + ["n_face"], uxgrid=g, name="psi")
+    if layout == "T_via_transpose" and lead:
+        uda = U.UxDataArray(np.ascontiguousarray(a.T), dims=(ldims + ["n_face"])[::-1], uxgrid=g, name="psi").transpose(*(ldims + ["n_face"]))
     try:
         r = uda.integrate(**kw)
     except Exception as e:
